@@ -592,22 +592,35 @@ func checkLoginWiring(c *Check) {
 	if !c.Anchor("cmd.RunNamedPipe", run != nil) {
 		return
 	}
+	// the wiring function, its closures and the functions of the package
+	// they were split into
 	var fns []*ssa.Function
-	fns = append(fns, run)
-	for _, f := range run.AnonFuncs {
-		fns = append(fns, f)
+	for _, fn := range p.AllRepoFuncs() {
+		if FuncPkgPath(fn) == FuncPkgPath(run) && fn.Blocks != nil {
+			fns = append(fns, fn)
+		}
+	}
+	chanMakeUp := func(fn *ssa.Function, v ssa.Value) ssa.Value {
+		var mk ssa.Value
+		for _, a := range resolveUp(p, fn, v, 0) {
+			m, ok := a.V.(*ssa.MakeChan)
+			if a.K != "alloc" || !ok || (mk != nil && mk != ssa.Value(m)) {
+				return nil
+			}
+			mk = m
+		}
+		return mk
 	}
 	var prodMk, consMk ssa.Value
 	var prodPos, consPos string
 	for _, fn := range fns {
-		r := NewResolver(p)
 		allInstrs(fn, func(in ssa.Instruction) {
 			switch x := in.(type) {
 			case *ssa.Call:
 				if sc := staticCallee(x.Common()); sc != nil && sc.Name() == "NewSshdProcessor" && InRepo(sc) {
 					for _, a := range x.Call.Args {
 						if isChanOf(a.Type(), "/internal/common", "RemoteUserLogin") {
-							prodMk = chanMake(r, a)
+							prodMk = chanMakeUp(fn, a)
 							prodPos = p.InstrPos(in)
 						}
 					}
@@ -615,7 +628,7 @@ func checkLoginWiring(c *Check) {
 			case *ssa.Store:
 				if fa, ok := x.Addr.(*ssa.FieldAddr); ok && fieldName(fa.X.Type(), fa.Field) == "Logins" {
 					if n := namedOf(fa.X.Type()); n != nil && n.Obj().Name() == "Auditd" {
-						consMk = chanMake(r, x.Val)
+						consMk = chanMakeUp(fn, x.Val)
 						consPos = p.InstrPos(in)
 					}
 				}
